@@ -827,6 +827,15 @@ func (w *World) execOnReplica(n *Node, rec *BlockRec, crash *NodeEvent, ev *Node
 	if crash != nil {
 		n.curK = crash.K % 24
 	}
+	if ev != nil && ev.SlowMs > 0 && n.Fault != nil && w.InBubble && n.dir == "" && w.wallAdvanced < 100*365*86400 {
+		n.Fault.SlowRead = time.Duration(ev.SlowMs) * time.Millisecond
+		n.Fault.Slept = 0
+		defer func() {
+			w.wallAdvanced += int64(n.Fault.Slept) * ev.SlowMs / 1000
+			n.Fault.SlowRead = 0
+			w.Fault("node.slow_disk")
+		}()
+	}
 	if ev != nil && ev.Proposal != "" {
 		w.replicaProposal(n, rec, ev.Proposal)
 	}
